@@ -1,10 +1,9 @@
 (* C07 — prefix matching is exact and its three implementations agree.
-   Proved here: the order-theoretic core on structured treespecs. The equivalence
+   Proved here: the order-theoretic core on structured treespecs, and the three-way equivalence
    flatten_up_to <-> is_prefix <-> prefix_errors (three separately written implementations, one of
-   them Python) is decided by the three-way correspondence/oracle run, see DESIGN §7 C07 — the
-   theorems named *_partial below say what part of the full statement is proved. *)
-From OptreeModel Require Import Base Tree Flatten Unflatten Spec Accessor.
-From OptreeProofs Require Import SpecProofs OrderProofs PrefixOrder JoinOrder FlattenGood UpToProofs UpToPrefix UpToPartition UpToPaths UpToTop.
+   them Python), each tied to the code by the correspondence run (cmd 3, cmd 25). *)
+From OptreeModel Require Import Base Tree Flatten Unflatten Spec Accessor PrefixErr.
+From OptreeProofs Require Import SpecProofs OrderProofs PrefixOrder JoinOrder FlattenGood UpToProofs UpToPrefix UpToPartition UpToPaths UpToTop PrefixErrProofs PrefixAntisym.
 From Coq Require Import Permutation.
 
 (* reflexive; comparing a treespec with itself never is a strict prefix *)
@@ -53,6 +52,32 @@ Theorem C07_is_prefix_trans_refuted_across_namespaces :
   exists a b c, ss_is_prefix a b false = true /\ ss_is_prefix b c false = true /\ ss_is_prefix a c false = false.
 Proof. exact ss_prefix_trans_refuted_across_namespaces. Qed.
 Print Assumptions C07_is_prefix_trans_refuted_across_namespaces.
+
+(* ANTISYMMETRIC UP TO THE EQUIVALENCE. Two treespecs that are prefixes of each other are equivalent:
+   st_prefix a b = (true, true), i.e. a <= b and every leaf of a sits on a leaf of b — the same tree up
+   to the kind / key order / default factory of dict nodes and the maxlen of deques. The equivalence
+   is symmetric, and it is exactly "mutual prefixes". *)
+Theorem C07_prefix_antisym :
+  forall a b, good a = true -> good b = true ->
+  fst (st_prefix a b) = true -> fst (st_prefix b a) = true ->
+  st_prefix a b = (true, true) /\ st_prefix b a = (true, true).
+Proof. exact prefix_antisym. Qed.
+Print Assumptions C07_prefix_antisym.
+
+Theorem C07_equivalence_is_mutual_prefix :
+  forall a b, good a = true -> good b = true ->
+  (st_prefix a b = (true, true) <-> fst (st_prefix a b) = true /\ fst (st_prefix b a) = true).
+Proof. exact E_iff_mutual_prefix. Qed.
+Print Assumptions C07_equivalence_is_mutual_prefix.
+
+(* at the level of PyTreeSpec.is_prefix: mutual prefixes are not strict prefixes of each other *)
+Theorem C07_is_prefix_antisym :
+  forall a b, good (stree_of a) = true -> good (stree_of b) = true ->
+  ss_is_prefix a b false = true -> ss_is_prefix b a false = true ->
+  ss_is_prefix a b true = false /\ ss_is_prefix b a true = false /\
+  st_prefix (stree_of a) (stree_of b) = (true, true).
+Proof. exact is_prefix_antisym. Qed.
+Print Assumptions C07_is_prefix_antisym.
 
 (* the side conditions of C07_prefix_refl hold for everything flatten produces *)
 Theorem C07_flatten_gives_good_treespecs :
@@ -145,6 +170,45 @@ Example C07_partition_example :
     option_map fst (match flatten c full with Ok r => Some r | Err _ => None end) = Some [Leaf 3; Leaf 1; Leaf 2] /\
     st_paths (stree_of sa) = [[KStr [98]]; [KStr [97]]].
 Proof. vm_compute. do 3 eexists. repeat split. Qed.
+
+(* THE THIRD DECIDER AGREES. prefix_errors (the Python tree-against-tree walk, with the same is_leaf /
+   none_is_leaf / namespace) returns an empty list exactly when flatten_up_to of the prefix tree's
+   treespec succeeds on the full tree. Every configuration (predicate included), all well-formed trees. *)
+Theorem C07_prefix_errors_iff_flatten_up_to :
+  forall c p f ls sp s,
+    wf_obj p = true -> wf_obj f = true -> flatten c p = Ok (ls, sp) -> sspec_of sp = Some s ->
+    (prefix_errors c p f = Ok [] <-> exists subtrees, ss_flatten_up_to (c_reg c) s f = Ok subtrees).
+Proof. exact prefix_errors_iff_flatten_up_to. Qed.
+Print Assumptions C07_prefix_errors_iff_flatten_up_to.
+
+(* NEVER ANOTHER EXCEPTION, NEVER A WRONG ANSWER. When the flatten functions of the full tree's custom
+   nodes are well behaved (wb), prefix_errors returns a list and flatten_up_to succeeds or raises
+   ValueError, and a mismatch is reported by both. *)
+Theorem C07_only_value_error :
+  forall c p f ls sp s,
+    wf_obj p = true -> wf_obj f = true -> wb c f = true -> flatten c p = Ok (ls, sp) -> sspec_of sp = Some s ->
+    (exists l, prefix_errors c p f = Ok l) /\
+    ((exists subtrees, ss_flatten_up_to (c_reg c) s f = Ok subtrees) \/
+     ss_flatten_up_to (c_reg c) s f = Err ValueError).
+Proof. exact prefix_total. Qed.
+Print Assumptions C07_only_value_error.
+
+Theorem C07_mismatch_reported_by_both :
+  forall c p f ls sp s,
+    wf_obj p = true -> wf_obj f = true -> wb c f = true -> flatten c p = Ok (ls, sp) -> sspec_of sp = Some s ->
+    ((exists e l, prefix_errors c p f = Ok (e :: l)) <-> ss_flatten_up_to (c_reg c) s f = Err ValueError).
+Proof. exact mismatch_reported_by_both. Qed.
+Print Assumptions C07_mismatch_reported_by_both.
+
+(* non-vacuity: two errors of different kinds in one pair, reported left to right with their key paths *)
+Example C07_prefix_errors_example :
+  let c := {| c_nil := false; c_ns := 0; c_pred := None; c_reg := []; c_ins := []; c_limit := 1000 |} in
+  let p := Node HTuple [Node HList [Leaf 1; Leaf 2]; Node (HDict [KStr [97]]) [Leaf 3]; Leaf 4] in
+  let f := Node HTuple [Node HList [Leaf 1]; Node (HODict [KStr [98]]) [Leaf 3]; Node HTuple []] in
+  wf_obj p = true /\ wf_obj f = true /\ wb c f = true /\
+  prefix_errors c p f = Ok [([KInt 0], PEArity); ([KInt 1], PEKeys)] /\
+  prefix_errors c p p = Ok [].
+Proof. vm_compute. repeat split. Qed.
 
 Example C07_example :
   let c := {| c_nil := false; c_ns := 0; c_pred := None; c_reg := []; c_ins := []; c_limit := 1000 |} in
